@@ -171,6 +171,10 @@ func c14Extras(cc *CheckCtx) {
 		}
 		cc.audit("strings-quoted", ok, "(String).Inspect returns strconv.Quote of the value: a saved string contains no raw newline or unescaped quote", "")
 	}
+	// functions are saved through the printer: what the formatter prints must parse back to the same program
+	// (the round-trip corpus of C02, which is where a wrongly dropped parenthesis in a function body shows)
+	cc.runBounded(BoundedSpec{Name: "printer-roundtrip", PkgDir: "repl", File: "c02_format_test.go", Test: "TestVerifBoundedRoundTrip", TimeoutS: 300,
+		Contract: "function bodies are saved through the printer: for every accepted text of the C02 corpus the normal and the compact output re-parse to a structurally identical program"})
 	cc.runBounded(BoundedSpec{Name: "save-load-roundtrip", PkgDir: "repl", File: "c14_saveload_test.go", Test: "TestVerifBoundedSaveLoad", TimeoutS: 120,
 		Contract: "every saved data binding reloads (whole and line by line) with the same type and an equal value, functions behave the same, one line per binding, re-saving gives the same file, over-long values are skipped"})
 	cc.Assume = append(cc.Assume,
